@@ -9,6 +9,9 @@ def run(tier, seed):
 
 
 def replay(scenario):
+    if "recorded" in scenario:
+        from .. import suitectx
+        return suitectx.replay(PROP, scenario)
     # the full comparison needs the graph: re-run the recorded path for result/value differences, else re-run the graph walk
     out = ctxreplay.ctx_replay_case(PROP, scenario)
     if out:
